@@ -45,12 +45,13 @@ type Fault struct {
 
 // TreeScript describes one run of the tree world.
 type TreeScript struct {
-	Prop   string  `json:"prop"`
-	Store  string  `json:"store"` // mem | lvlmem | lvlp | p
-	Cache  string  `json:"cache"` // own | shared
-	Ver    int64   `json:"ver"`
-	Faults []Fault `json:"faults,omitempty"`
-	Ops    []Op    `json:"ops"`
+	Prop    string  `json:"prop"`
+	Store   string  `json:"store"`             // mem | lvlmem | lvlp | p
+	Cache   string  `json:"cache"`             // own | shared
+	Observe string  `json:"observe,omitempty"` // "" = harness reads through the trie under test; "fresh" = through throw-away trie objects
+	Ver     int64   `json:"ver"`
+	Faults  []Fault `json:"faults,omitempty"`
+	Ops     []Op    `json:"ops"`
 }
 
 func (s *TreeScript) Len() int { return len(s.Ops) + len(s.Faults) }
@@ -282,7 +283,7 @@ func (w *world) close() {
 // faultyDB wraps a NodeDB and fails chosen operations.
 type faultyDB struct {
 	util.NodeDB
-	w    *world
+	w     *world
 	n     map[string]int
 	fired int
 	fail  map[string]map[int]bool
